@@ -222,6 +222,14 @@ def build_fail(st, r, lazy=False):
     k = gen.choice(r, [0, 1, 1, 1, 2, 3, 4, 5, 6, 7, 8, 9, 10, 10, 11, 12, 13, 13, 14, 14, 15, 16, 17, 18])
     if lazy and version == "gfa2" and gen.chance(r, 0.3):
         k = 18
+    if gen.fair(r, 0.05):
+        # None removes a tag; given to a positional field of a connected line it is no value at all
+        fields = {"F": ["external", "s_beg", "alignment"], "S": ["sequence"], "C": ["pos"], "L": ["overlap"], "E": ["beg1", "alignment"], "G": ["disp", "var"]}
+        cands = [i_ for i_, x in enumerate(m.recs) if x.rt in fields]
+        pref = [i_ for i_ in cands if m.recs[i_].rt == "F"]
+        if cands:
+            i = gen.choice(r, pref) if pref and gen.chance(r, 0.5) else gen.choice(r, cands)
+            return ["fail", "set", i, gen.choice(r, fields[m.recs[i].rt]), None, gen.choice(r, ["set", "attr"]), "positional_none"]
     if gen.fair(r, 0.012):
         # an identifier of several thousand decimal digits (beyond what int() converts): legal, so the call is expected
         # to succeed (which ends the case); should it raise, at whatever stage, the Gfa has to be as before
@@ -394,7 +402,7 @@ def build_fail(st, r, lazy=False):
 
 LAZY_KINDS = ("duplicate_id", "duplicate_id_instance", "group_tag_conflict", "group_named_like_other", "same_link_again",
               "same_link_again_instance", "other_version", "other_version_instance", "self_mention", "multiply_unknown_policy",
-              "unknown_name", "readonly_field", "ordered_item_without_orientation", "huge_decimal_name")
+              "unknown_name", "readonly_field", "ordered_item_without_orientation", "huge_decimal_name", "positional_none")
 
 
 def gen_case(r, version):
